@@ -8,7 +8,7 @@ from ..refs import tree
 
 ID = "C18"
 RULE = ("calendars built through the API or parsed from generated text, with zoned values in DTSTART/DTEND/DUE/RECURRENCE-ID/RDATE/EXDATE (lists, periods), "
-        "FREEBUSY and explicit TZID parameters on arbitrary (X-, text) properties at depth <= 5; ids: known Olson ids (UTC, Etc/UTC and GMT as literal TZID parameters among them), unknown ids, Windows names and "
+        "FREEBUSY and explicit TZID parameters on arbitrary (X-, text) properties at depth <= 64; ids: known Olson ids (UTC, Etc/UTC and GMT as literal TZID parameters among them), unknown ids, Windows names and "
         "'/'-prefixed ids; VTIMEZONEs already present drawn from {used, unused, unknown id, duplicate, without TZID}; 1-3 repeated calls with random "
         "date windows; both providers. Oracles: get_used_tzids() == the TZID parameters found by the R8 observation on every value of every nested "
         "component; get_missing_tzids() == used - present; neither raises; after add_missing_timezones() every plainly known used id has exactly one "
@@ -108,7 +108,13 @@ def check_case(ctx, case):
             inner = icalendar.cal.Component()
             inner.name = "X-INNER"
             inner.add("x-prop", "v", parameters={"TZID": tzid, "X-OTHER": "1"})
-            deep.add_component(inner)
+            cur = deep
+            for _ in range(rng.choice((0, 0, 3, 20, 60))):          # "at any nesting depth": up to the bound C04 uses (S10, S26)
+                nxt = icalendar.cal.Component()
+                nxt.name = "X-DEEP"
+                cur.add_component(nxt)
+                cur = nxt
+            cur.add_component(inner)
             target.add_component(deep)
     # VTIMEZONEs already present
     obs_used = used_from_obs(tree.obs(cal), set())
